@@ -253,6 +253,32 @@ fn check_one(rep: &Report, ck: &str, c: &Case, params: &[Params]) -> CheckResult
         rep.class("transplant-skipped(public parts not reproducible)");
     }
 
+    // ---- negative (v): degenerate square proofs -----------------------------------------------------------
+    // F := 0 (or n) has no inverse modulo n.  A verifier that maps the missing inverse to 0 recomputes both hashed
+    // commitments as 0 and accepts challenge = H("00"); one that maps it to 1 recomputes (g^d h^d1, 0) and accepts
+    // challenge = H(g^d h^d1 || "0"): both computable without any secret, for any commitment
+    for which in ["proof_of_square_a", "proof_of_square_b"] {
+        for (zn, zero) in [("0", Integer::new()), ("n", p.n.clone())] {
+            for variant in 0..2 {
+                let base = format!("/proof_of_tolerance/{}", which);
+                let (Some(d), Some(d1)) = (int_of(&pj.pointer(&format!("{}/proof_ss/d", base)).cloned().unwrap_or(Value::Null)), int_of(&pj.pointer(&format!("{}/proof_ss/d_1", base)).cloned().unwrap_or(Value::Null))) else { continue };
+                let text = if variant == 0 {
+                    "00".to_string()
+                } else {
+                    let lhs = Integer::from(p.g.pow_mod_ref(&d, &p.n).unwrap()) * Integer::from(p.h.pow_mod_ref(&d1, &p.n).unwrap()) % &p.n;
+                    lhs.to_string() + "0"
+                };
+                let ch = Integer::from_digits(<Sha256 as digest::Digest>::digest(text.as_bytes()).as_slice(), rug::integer::Order::MsfBe);
+                let mut j = pj.clone();
+                if !set_leaf(&mut j, &format!("{}/F", base), &zero) || !set_leaf(&mut j, &format!("{}/proof_ss/challenge", base), &ch) {
+                    continue;
+                }
+                let Ok(fp) = serde_json::from_value::<Boudot2000RangeProof>(j) else { continue };
+                reject("degenerate-square-proof", ver(&fp, &p.g, &p.h, &p.n, &a, &b), format!("{}: F := {}, challenge := H({})", which, zn, if variant == 0 { "\"00\"" } else { "g^d h^d1 || \"0\"" }))?;
+            }
+        }
+    }
+
     // a second, fresh proof object whose FIRST verifications are refused ones (exchanged base, foreign base,
     // other bounds), then its own statement (every second case)
     if c.seed % 2 == 0 {
@@ -386,7 +412,7 @@ pub fn run(ctx: &Ctx, rep: &Report) -> Meta {
                x in {a, a+1, mid, b-1, b, random}; commitment randomness of about |n| bits (half of the cases), tiny, negative, a fraction k/16 of 2^40*n of either sign, +-(2^40*n - 1); positive: verify(prove(x)) true and the proof survives JSON; negative: (i) the honest prover on a-1, b+1, a-2^k, b+2^k, b+width yields no accepted proof (a panic counts as no proof), \
                (ii) other bounds / exchanged or squared bases / other modulus, (iii) integer leaves perturbed by +1, -1, := 0, := sibling, one high bit flipped, +2^k for k in {128, 160, 256, 300} (sampled in quick, all leaves in thorough), \
                (iv) transplant of the sub-proofs onto commitments to b+1, a far value, a random group element, the same value with other randomness, with and without overwriting the square proofs' E; \
-               self-check: the harness' public recomputation reproduces the honest proof; non-trivial = outside the (interval, mid-range x) settings the crate uses itself; evaluations = verifier decisions"
+               (v) degenerate square proofs: F := 0 or n with challenge := H(\"00\") or H(g^d h^d1 || \"0\") (what a verifier that maps a missing inverse to 0 or 1 recomputes; no secret needed); self-check: the harness' public recomputation reproduces the honest proof; non-trivial = outside the (interval, mid-range x) settings the crate uses itself; evaluations = verifier decisions"
             .into(),
         assumptions: vec!["0 <= a < b (the domain every caller in the crate uses)".into(), "CL1024-size moduli".into()],
     }
